@@ -28,6 +28,10 @@ enum Call {
     /// fft_inv_into twice into a prefilled destination
     InvIntoTwice { a: Poly, b: Poly, dst: u8, fill: i32 },
     UpdateN { log: u8 },
+    /// continue on a clone of the object (derive(Clone)); the original is dropped
+    CloneSwap,
+    /// continue on FFT::default()
+    FreshDefault,
 }
 
 #[derive(Clone, Debug, Hash, Serialize, Deserialize, PartialEq)]
@@ -162,7 +166,7 @@ fn run<F: Float>(c: &Case, budget: f64, maxlen: u32) -> CaseResult {
         let polys: Vec<&Poly> = match call {
             Call::Mul { a, b } | Call::MulInto { a, b, .. } | Call::Spectrum { a, b, .. } | Call::CrossInverse { a, b } | Call::InvIntoTwice { a, b, .. } => vec![a, b],
             Call::FftIntoTwice { a } => vec![a],
-            Call::UpdateN { .. } => vec![],
+            Call::UpdateN { .. } | Call::CloneSwap | Call::FreshDefault => vec![],
         };
         if polys.iter().any(|p| p.len > maxlen) {
             continue;
@@ -317,6 +321,15 @@ fn run<F: Float>(c: &Case, budget: f64, maxlen: u32) -> CaseResult {
                 table = table.max(n);
                 st.label("fft_inv_into-accumulate");
             }
+            Call::CloneSwap => {
+                let c = obj.clone();
+                obj = c;
+                st.label("continue-on-clone");
+            }
+            Call::FreshDefault => {
+                obj = FFT::<F>::default();
+                table = 4;
+            }
             Call::UpdateN { log } => {
                 let n = 1usize << (*log as usize % 13);
                 obj.update_n(n);
@@ -377,6 +390,8 @@ fn call(max_log: u32) -> impl Strategy<Value = Call> {
         6 => (1u32..=(1 << max_log.min(9))).prop_flat_map(poly).prop_map(|a| Call::FftIntoTwice { a }),
         8 => (pair(), 0u8..3, any::<i32>()).prop_map(|((a, b), dst, fill)| Call::InvIntoTwice { a, b, dst, fill: fill % 1000 }),
         6 => (0u8..13).prop_map(|log| Call::UpdateN { log }),
+        4 => Just(Call::CloneSwap),
+        1 => Just(Call::FreshDefault),
     ]
 }
 
